@@ -53,7 +53,7 @@ func taDecode(text []byte) (string, *trackaddict.Session) {
 	select {
 	case r := <-ch:
 		return r.cls, r.sess
-	case <-time.After(10 * time.Second):
+	case <-time.After(30 * time.Second):
 		taHangs++
 		return "hang", nil
 	}
